@@ -57,6 +57,10 @@ def skeleton_repeat(draw, c):
     if draw(st.booleans()):
         derived.append({"name": "X", "args": ["A", "B"], "kind": "within", "width": 1, "stride": 1, "start": None,
                         "levels": [["x0", 1], ["x1", 1]], "else_last": False, "salt": draw(st.integers(0, 10 ** 6)), "overrides": {}})
+    if draw(st.integers(0, 2)) == 0:
+        # an uncrossed complex-window factor: its per-repetition variable lists are built by a separate code path
+        derived.append({"name": "Z", "args": [draw(st.sampled_from(["A", "B"]))], "kind": "transition", "width": 2, "stride": 1, "start": None,
+                        "levels": [["z0", 1], ["z1", 1]], "else_last": draw(st.booleans()), "salt": draw(st.integers(0, 10 ** 6)), "overrides": {}})
     names = ["A", "B"] + [d["name"] for d in derived]
     spec = {"factors": [A, B], "derived": derived}
     leaf = {"type": "cross", "design": names, "crossing": crossing, "constraints": [], "rcc": True}
@@ -74,12 +78,25 @@ def skeleton_repeat(draw, c):
         con["index"] = draw(st.sampled_from([0, 1, -1, -2, T1 - 1, -T1]))
     else:
         con["k"] = draw(st.sampled_from([1, 1, 2, 2, 3]))
-    placement = draw(st.sampled_from(["member", "member", "combinator"]))
+    placement = draw(st.sampled_from(["member", "member", "combinator", "both", "both"]))
     cs = [{"kind": "min", "k": k}]
-    if placement == "member":
+    if placement in ("member", "both"):
         leaf["constraints"].append(con)
     else:
         cs.append(con)
+    if placement == "both":
+        # both scopes at once, most of the time on the same factor and level (two encodings of one level's variables
+        # with different geometry inside one formula)
+        t2 = target if draw(st.integers(0, 3)) else draw(st.sampled_from(names))
+        lv2 = [l[0] for l in S.levels_of(spec, t2)]
+        l2 = con["level"] if (t2 == target and draw(st.integers(0, 3))) else draw(st.sampled_from(lv2))
+        k2 = draw(st.sampled_from(["atmost", "atmost", "atleast", "exactly_k", "pin"]))
+        con2 = {"kind": k2, "factor": t2, "level": l2}
+        if k2 == "pin":
+            con2["index"] = draw(st.sampled_from([0, 1, -1, -2]))
+        else:
+            con2["k"] = draw(st.sampled_from([1, 1, 2, 2, 3]))
+        cs.append(con2)
     spec["block"] = {"type": "repeat", "block": leaf, "constraints": cs}
     spec["skeleton"] = {"preamble": preamble, "repetitions": reps, "constraint": kind, "placement": placement}
     return spec
